@@ -28,7 +28,8 @@ LEVEL_TEXT = (
     "iteration's record; (P3) each operator/array arm passes a raise with the right PanicReason on every path and "
     "non-failing arms raise nothing; (P4) the location operand is the node's own meta; (P5/P6) the record is carried "
     "to the outputs and decoded first. Not decided: that condition wires are arithmetically right (C03), the t/f "
-    "operand order of merges, evaluation order between siblings.")
+    "operand order of merges, evaluation order between siblings."
+    " Cross-references P7 / P8: every operand is evaluated exactly once and every operand / callee body is lowered on every path (C14 E11, E12, E16), else a failure is reported twice, spuriously, or not at all.")
 LEVEL_NOTE = ("Trusted: rustc MIR/HIR and callee resolution; push_mux(s,a,b) selects a when s; callee lowering functions obey "
               "the same protocol (checked for each function that touches the record: inductive). Paths are pruned only on "
               "switches over the discriminant of the node being lowered.")
